@@ -61,19 +61,44 @@ theorem packI_ht {ht : Nat} (hht : ht < 2 ^ 31) : packI 4 (ht : Int) = .ok (leBy
 
 /-! ### hash-type decoding: Python's masks on an int vs. the spec's on a natural number -/
 
-theorem ht_none_iff (ht : Nat) : ((ht : Int) % 32 = 2) ↔ isNone ht = true := by
-  unfold isNone SIGHASH_NONE; rw [decide_eq_true_iff]; omega
-theorem ht_single_iff (ht : Nat) : ((ht : Int) % 32 = 3) ↔ isSingle ht = true := by
-  unfold isSingle SIGHASH_SINGLE; rw [decide_eq_true_iff]; omega
-theorem ht_acp_iff (ht : Nat) : ((ht : Int) / 128 % 2 ≠ 0) ↔ isAnyoneCanPay ht = true := by
-  unfold isAnyoneCanPay SIGHASH_ANYONECANPAY; rw [decide_eq_true_iff]; omega
-theorem htAcp_eq (ht : Nat) : htAnyoneCanPay (ht : Int) = isAnyoneCanPay ht := by
+/-- the Python int `h` and the spec's natural number `ht` agree on the five mode bits and on bit 0x80 -/
+def HtRel (h : Int) (ht : Nat) : Prop :=
+  h % 32 = ((ht % 32 : Nat) : Int) ∧ h / 128 % 2 = ((ht / 128 % 2 : Nat) : Int)
+
+theorem htRel_cast (ht : Nat) : HtRel (ht : Int) ht := by
+  unfold HtRel; omega
+
+/-- a (possibly negative) hash type in the int32 range is related to its two's-complement reading -/
+theorem htRel_int32 (h : Int) : HtRel h (h % 4294967296).toNat := by
+  unfold HtRel; omega
+
+/-- `struct.pack('<i', h)` in the int32 range: the four little-endian bytes of the two's complement -/
+theorem packI_int32 {h : Int} (h1 : -(2 ^ 31 : Int) ≤ h) (h2 : h < 2 ^ 31) :
+    packI 4 h = .ok (leBytes 4 (h % 4294967296).toNat) := by
+  rw [packI_ok (by omega) (by omega)]
+  simp only [leBytesInt]
+  have h256 : ((256 ^ 4 : Nat) : Int) = 4294967296 := by simp
+  rw [h256]
+
+/-- outside the int32 range `struct.pack('<i', h)` raises struct.error -/
+theorem packI_out_of_range {h : Int} (hh : h < -(2 ^ 31 : Int) ∨ (2 ^ 31 : Int) ≤ h) :
+    packI 4 h = .error structError := by
+  unfold packI
+  rw [if_neg (by omega)]
+
+theorem ht_none_iff {h : Int} {ht : Nat} (hr : HtRel h ht) : (h % 32 = 2) ↔ isNone ht = true := by
+  unfold isNone SIGHASH_NONE; rw [decide_eq_true_iff]; unfold HtRel at hr; omega
+theorem ht_single_iff {h : Int} {ht : Nat} (hr : HtRel h ht) : (h % 32 = 3) ↔ isSingle ht = true := by
+  unfold isSingle SIGHASH_SINGLE; rw [decide_eq_true_iff]; unfold HtRel at hr; omega
+theorem ht_acp_iff {h : Int} {ht : Nat} (hr : HtRel h ht) : (h / 128 % 2 ≠ 0) ↔ isAnyoneCanPay ht = true := by
+  unfold isAnyoneCanPay SIGHASH_ANYONECANPAY; rw [decide_eq_true_iff]; unfold HtRel at hr; omega
+theorem htAcp_eq {h : Int} {ht : Nat} (hr : HtRel h ht) : htAnyoneCanPay h = isAnyoneCanPay ht := by
   unfold htAnyoneCanPay
-  by_cases h : isAnyoneCanPay ht = true
-  · rw [h, decide_eq_true_iff]; exact (ht_acp_iff ht).mpr h
-  · have h' : ¬ ((ht : Int) / 128 % 2 ≠ 0) := fun hh => h ((ht_acp_iff ht).mp hh)
-    simp only [Bool.not_eq_true] at h
-    rw [h, decide_eq_false_iff_not]; exact h'
+  by_cases hc : isAnyoneCanPay ht = true
+  · rw [hc, decide_eq_true_iff]; exact (ht_acp_iff hr).mpr hc
+  · have h' : ¬ (h / 128 % 2 ≠ 0) := fun hh => hc ((ht_acp_iff hr).mp hh)
+    simp only [Bool.not_eq_true] at hc
+    rw [hc, decide_eq_false_iff_not]; exact h'
 theorem not_none_and_single (ht : Nat) : ¬ (isNone ht = true ∧ isSingle ht = true) := by
   unfold isNone isSingle SIGHASH_NONE SIGHASH_SINGLE
   rw [decide_eq_true_iff, decide_eq_true_iff]; omega
@@ -92,30 +117,30 @@ theorem fieldsWF_of_WFTx {t : Tx} (h : WFTx t) : FieldsWF t := by
 
 /-! ### the three BIP143 sub-hashes -/
 
-theorem v0HashPrevouts_eq (tx : Tx) (ht : Nat) (hwf : FieldsWF tx) :
-    v0HashPrevouts tx (ht : Int) = .ok (hashPrevouts tx ht) := by
+theorem v0HashPrevouts_eq (tx : Tx) (ht : Nat) {h : Int} (hr : HtRel h ht) (hwf : FieldsWF tx) :
+    v0HashPrevouts tx h = .ok (hashPrevouts tx ht) := by
   obtain ⟨_, _, _, _, hin, _, _⟩ := hwf
   have hprev : tx.vin.mapM (fun i => serOutPoint i.prevout) = .ok (tx.vin.map (fun i => outPoint i.prevout)) :=
     mapM_ok _ _ _ (fun x hx => serOutPoint_ok (hin x hx).1)
   unfold v0HashPrevouts hashPrevouts
-  rw [htAcp_eq, hprev, zero32_eq]
+  rw [htAcp_eq hr, hprev, zero32_eq]
   by_cases ha : isAnyoneCanPay ht = true
   · simp [ha, pure, Except.pure]
   · simp [ha, bind, Except.bind, pure, Except.pure]
 
-theorem v0HashSequence_eq (tx : Tx) (ht : Nat) (hwf : FieldsWF tx) :
-    v0HashSequence tx (ht : Int) = .ok (hashSequence tx ht) := by
+theorem v0HashSequence_eq (tx : Tx) (ht : Nat) {h : Int} (hr : HtRel h ht) (hwf : FieldsWF tx) :
+    v0HashSequence tx h = .ok (hashSequence tx ht) := by
   obtain ⟨_, _, _, _, hin, _, _⟩ := hwf
   have hseq : tx.vin.mapM (fun i => packU 4 i.nSequence) = .ok (tx.vin.map (fun i => leBytes 4 i.nSequence)) :=
     mapM_ok _ _ _ (fun x hx => packU_ok (by have := (hin x hx).2; omega))
   unfold v0HashSequence hashSequence
-  rw [htAcp_eq, hseq, zero32_eq]
+  rw [htAcp_eq hr, hseq, zero32_eq]
   by_cases ha : isAnyoneCanPay ht = true <;> by_cases h2 : isNone ht = true <;>
     by_cases h3 : isSingle ht = true <;>
-    simp [ha, h2, h3, ht_none_iff, ht_single_iff, bind, Except.bind, pure, Except.pure]
+    simp [ha, h2, h3, ht_none_iff hr, ht_single_iff hr, bind, Except.bind, pure, Except.pure]
 
-theorem v0HashOutputs_eq (tx : Tx) (i : Nat) (ht : Nat) (hwf : FieldsWF tx) :
-    v0HashOutputs tx i (ht : Int) = .ok (hashOutputs tx i ht) := by
+theorem v0HashOutputs_eq (tx : Tx) (i : Nat) (ht : Nat) {h : Int} (hr : HtRel h ht) (hwf : FieldsWF tx) :
+    v0HashOutputs tx i h = .ok (hashOutputs tx i ht) := by
   obtain ⟨_, _, _, _, _, hout, _⟩ := hwf
   have houts : tx.vout.mapM serTxOut = .ok (tx.vout.map txOut) :=
     mapM_ok _ _ _ (fun x hx => serTxOut_ok (hout x hx).1 (hout x hx).2.1 (hout x hx).2.2)
@@ -127,7 +152,7 @@ theorem v0HashOutputs_eq (tx : Tx) (i : Nat) (ht : Nat) (hwf : FieldsWF tx) :
     have hlt : ¬ i < tx.vout.length := by
       have := List.getElem?_eq_none_iff.mp hvo; omega
     by_cases h2 : isNone ht = true <;> by_cases h3 : isSingle ht = true <;>
-      simp [h2, h3, hlt, ht_none_iff, ht_single_iff, bind, Except.bind, pure, Except.pure]
+      simp [h2, h3, hlt, ht_none_iff hr, ht_single_iff hr, bind, Except.bind, pure, Except.pure]
   | some o =>
     have hlt : i < tx.vout.length := by
       rcases List.getElem?_eq_some_iff.mp hvo with ⟨h, _⟩; exact h
@@ -135,17 +160,18 @@ theorem v0HashOutputs_eq (tx : Tx) (i : Nat) (ht : Nat) (hwf : FieldsWF tx) :
     have hmo : o ∈ tx.vout := List.mem_of_getElem? hvo
     have hso := serTxOut_ok (hout o hmo).1 (hout o hmo).2.1 (hout o hmo).2.2
     by_cases h2 : isNone ht = true <;> by_cases h3 : isSingle ht = true <;>
-      simp [h2, h3, hlt, hgo, hso, ht_none_iff, ht_single_iff, bind, Except.bind, pure, Except.pure]
+      simp [h2, h3, hlt, hgo, hso, ht_none_iff hr, ht_single_iff hr, bind, Except.bind, pure, Except.pure]
 
 /-- the whole witness-v0 branch on an in-range transaction and an existing input -/
 theorem bip143_eq (sc : Bytes) (tx : Tx) (i : Nat) (inp : TxIn) (ht : Nat) (amount : Int)
     (hwf : FieldsWF tx) (hi : tx.vin[i]? = some inp) (hsc : sc.length < 2 ^ 64)
-    (ha1 : -(2 ^ 63 : Int) ≤ amount) (ha2 : amount < 2 ^ 63) (hht : ht < 2 ^ 31) :
-    signatureHashWitnessV0 sc tx i (ht : Int) (some amount)
+    (ha1 : -(2 ^ 63 : Int) ≤ amount) (ha2 : amount < 2 ^ 63)
+    {h : Int} (hr : HtRel h ht) (hh : packI 4 h = .ok (leBytes 4 ht)) :
+    signatureHashWitnessV0 sc tx i h (some amount)
       = .ok (Crypto.hash256 (bip143Preimage sc tx i inp ht amount)) := by
-  have hp := v0HashPrevouts_eq tx ht hwf
-  have hs := v0HashSequence_eq tx ht hwf
-  have ho := v0HashOutputs_eq tx i ht hwf
+  have hp := v0HashPrevouts_eq tx ht hr hwf
+  have hs := v0HashSequence_eq tx ht hr hwf
+  have ho := v0HashOutputs_eq tx i ht hr hwf
   obtain ⟨hv1, hv2, _, _, hin, hout, hlock⟩ := hwf
   have hmem : inp ∈ tx.vin := List.mem_of_getElem? hi
   have hver : packI 4 tx.nVersion = .ok (leBytesInt 4 tx.nVersion) :=
@@ -155,7 +181,6 @@ theorem bip143_eq (sc : Bytes) (tx : Tx) (i : Nat) (inp : TxIn) (ht : Nat) (amou
     packU_ok (by have := (hin inp hmem).2; omega)
   have hlk : packU 4 tx.nLockTime = .ok (leBytes 4 tx.nLockTime) := packU_ok (by omega)
   have ham : packI 8 amount = .ok (leBytesInt 8 amount) := packI_ok (by simpa using ha1) (by simpa using ha2)
-  have hh := packI_ht hht
   have hget : pyGetNat tx.vin i = .ok inp := by simp [pyGetNat, hi]
   unfold signatureHashWitnessV0 bip143Preimage
   generalize Crypto.hash256 = H
